@@ -24,13 +24,15 @@ ENCODED = ["twisted.internet.abstract:FileDescriptor.write", "twisted.internet.a
            "twisted.internet.abstract:FileDescriptor.connectionLost",
            "twisted.internet.abstract:_ConsumerMixin.registerProducer",
            "twisted.internet.abstract:_ConsumerMixin.unregisterProducer"]
-BOUNDS = {"quick": {"hist": 3, "cap": 1 << 20}, "thorough": {"hist": 4, "cap": 1 << 20}}
+BOUNDS = {"quick": {"hist": 3, "rw": 3, "cap": 1 << 20}, "thorough": {"hist": 4, "rw": 5, "cap": 1 << 20}}
 B = {}
 BOUNDS_TEXT = ("inductive steps: ANY buffer state satisfying the representation invariant (dataBuffer of any length, "
                "any offset, 0-2 pending pieces of any length, all <= cap = 1 MiB; SEND_LIMIT >= 1 and bufferSize >= 0 "
                "any ints; every combination of producer kind / paused / disconnecting / half-close flags) and ONE "
                "operation with any length / any OS accept count; histories of hist operations from a fresh "
-               "descriptor (lengths, accept counts, SEND_LIMIT, bufferSize symbolic) followed by a full drain")
+               "descriptor (lengths, accept counts, SEND_LIMIT, bufferSize symbolic) followed by a full drain; "
+               "partial-write schedules: optional producer, rw write/doWrite operations in any order, optional "
+               "loseConnection, drain")
 OUTSIDE = ["real sockets and reactors (writeSomeData is the harness's OS model; the reactor only records "
            "addWriter/removeWriter/removeReader)",
            "writes larger than 1 MiB and more than two pending pieces in the inductive pre-state (lengths are "
@@ -511,6 +513,58 @@ def _concrete(d, top):
     return top
 
 
+def _history(sl, bs, ops):
+    """ops: (kind, x, y) with kind 0 write(x), 1 writeSequence([x, y]), 2 doWrite accepting x, 3/4 register a
+    push/pull producer, 5 unregister, 6 loseConnection, 7 loseWriteConnection, 8 nothing; then a full drain"""
+    rope.reset()
+    fd = _FD(_Reactor(False, True))
+    fd.SEND_LIMIT = sl
+    fd.bufferSize = bs
+    A = 0
+    W = 0
+    closed = False
+    asked = False
+    for (o, x, y) in ops:
+        o = _concrete(o, 8)     # one path family per operation kind
+        if o == 8 or closed:
+            continue
+        if o == 0:
+            ok, A, W, closed = _op_write(fd, A, W, x)
+        elif o == 1:
+            ok, A, W, closed = _op_writeseq(fd, A, W, x, y)
+        elif o == 2:
+            ok, A, W, closed = _op_dowrite(fd, A, W, x)
+        elif o == 3:
+            ok, A, W, closed = _op_register(fd, A, W, True)
+        elif o == 4:
+            ok, A, W, closed = _op_register(fd, A, W, False)
+        elif o == 5:
+            ok, A, W, closed = _op_unregister(fd, A, W)
+        elif o == 6:
+            ok, A, W, closed = _op_lose(fd, A, W)
+            asked = True
+        else:
+            ok, A, W, closed = _op_losewrite(fd, A, W)
+        if not ok:
+            return False
+    # the OS now accepts everything: at most two doWrite calls hand over all that was written, in order
+    # (two because a dataBuffer of >= SEND_LIMIT unsent bytes goes out before the pending pieces)
+    for i in range(2):
+        if closed:
+            break
+        ok, A, W, closed = _op_dowrite(fd, A, W, 8 * B['cap'])
+        if not ok:
+            return False
+    cover()
+    if A != W:
+        return False
+    if closed and not asked:
+        return False
+    if asked and fd.producer is None and not closed:
+        return False        # close was requested, nothing is left, nobody holds it back: it must have happened
+    return True
+
+
 def history(sl: int, bs: int, o0: int, x0: int, y0: int, o1: int, x1: int, y1: int, o2: int, x2: int, y2: int,
             o3: int, x3: int, y3: int) -> bool:
     """
@@ -522,52 +576,26 @@ def history(sl: int, bs: int, o0: int, x0: int, y0: int, o1: int, x1: int, y1: i
     post: _
     """
     with _patched():
-        rope.reset()
-        fd = _FD(_Reactor(False, True))
-        fd.SEND_LIMIT = sl
-        fd.bufferSize = bs
-        A = 0
-        W = 0
-        closed = False
-        for (o, x, y) in ((o0, x0, y0), (o1, x1, y1), (o2, x2, y2), (o3, x3, y3)):
-            o = _concrete(o, 8)
-            if o == 8 or closed:
-                continue
-            if o == 0:
-                ok, A, W, closed = _op_write(fd, A, W, x)
-            elif o == 1:
-                ok, A, W, closed = _op_writeseq(fd, A, W, x, y)
-            elif o == 2:
-                ok, A, W, closed = _op_dowrite(fd, A, W, x)
-            elif o == 3:
-                ok, A, W, closed = _op_register(fd, A, W, True)
-            elif o == 4:
-                ok, A, W, closed = _op_register(fd, A, W, False)
-            elif o == 5:
-                ok, A, W, closed = _op_unregister(fd, A, W)
-            elif o == 6:
-                ok, A, W, closed = _op_lose(fd, A, W)
-            else:
-                ok, A, W, closed = _op_losewrite(fd, A, W)
-            if not ok:
-                return False
-        # the OS now accepts everything: at most two doWrite calls hand over all that was written, in order
-        # (two because a dataBuffer of >= SEND_LIMIT unsent bytes goes out before the pending pieces)
-        asked = bool(fd.disconnecting)
-        for i in range(2):
-            if closed:
-                break
-            ok, A, W, closed = _op_dowrite(fd, A, W, 8 * B['cap'])
-            if not ok:
-                return False
-        cover()
-        if A != W:
-            return False
-        if closed and not asked:
-            return False
-        if asked and fd.producer is None and not closed:
-            return False        # close was requested, nothing is left, nobody holds it back: it must have happened
-        return True
+        return _history(sl, bs, ((o0, x0, y0), (o1, x1, y1), (o2, x2, y2), (o3, x3, y3)))
+
+
+def history_rw(sl: int, bs: int, prod: int, r0: bool, x0: int, r1: bool, x1: int, r2: bool, x2: int, r3: bool,
+               x3: int, r4: bool, x4: int, lose: bool) -> bool:
+    """
+    pre: 1 <= sl <= 4 * B['cap'] and 0 <= bs <= 4 * B['cap'] and 0 <= prod <= 2
+    pre: 0 <= x0 <= B['cap'] and 0 <= x1 <= B['cap'] and 0 <= x2 <= B['cap'] and 0 <= x3 <= B['cap'] and 0 <= x4 <= B['cap']
+    pre: B['rw'] >= 5 or (r4 and x4 == 0)
+    pre: B['rw'] >= 4 or (r3 and x3 == 0)
+    post: _
+    """
+    # partial-write schedules: an optional producer, then write(x) / doWrite(accepting x) in any order, then
+    # optionally loseConnection, then the drain
+    with _patched():
+        ops = [((8, 3, 4)[_concrete(prod, 2)], 0, 0)]
+        for (r, x) in ((r0, x0), (r1, x1), (r2, x2), (r3, x3), (r4, x4)):
+            ops.append((2 if r else 0, x, 0))
+        ops.append((6 if lose else 8, 0, 0))
+        return _history(sl, bs, ops)
 
 
 _NT = [("nt == 0",), ("nt == 1",), ("nt == 2",)]
@@ -582,6 +610,9 @@ HARNESSES = [
     H(step_lose, shards=_NT, timeout={"quick": 60, "thorough": 300}),
     H(history, shards=lambda tier: [("o0 == %d" % a, "o1 == %d" % b2) + (("o3 == 8", "x3 == 0", "y3 == 0") if BOUNDS[tier]["hist"] < 4 else ())
                                     for a in range(8) for b2 in range(8)],
+      timeout={"quick": 60, "thorough": 900}),
+    H(history_rw, shards=[("prod == %d" % p, "r0 == %s" % a, "r1 == %s" % c) for p in range(3)
+                          for a in (False, True) for c in (False, True)],
       timeout={"quick": 60, "thorough": 900}),
 ]
 
@@ -601,8 +632,11 @@ VECTORS = {
     "step_lose": [(0, 0, 0, 0, 0, 0, 3, 4, 1, False, False, True, True, False, False),
                   (0, 3, 1, 1, 2, 0, 3, 4, 0, False, False, False, False, True, False),
                   (0, 3, 1, 1, 2, 0, 3, 4, 0, False, False, False, False, True, True)],
-    "history": [(4, 3, 0, 5, 0, 2, 2, 0, 6, 0, 0, 8, 0, 0), (1, 0, 3, 0, 0, 1, 2, 3, 2, 1, 0, 8, 0, 0),
+    "history": [(1, 0, 7, 0, 0, 2, 1, 0, 6, 0, 0, 8, 0, 0), (4, 3, 0, 5, 0, 2, 2, 0, 6, 0, 0, 8, 0, 0), (1, 0, 3, 0, 0, 1, 2, 3, 2, 1, 0, 8, 0, 0),
                 (100, 2, 4, 0, 0, 0, 7, 0, 6, 0, 0, 8, 0, 0), (2, 2, 7, 0, 0, 2, 0, 0, 0, 3, 0, 8, 0, 0)],
+    "history_rw": [(3, 2, 1, False, 5, True, 2, False, 1, True, 9, True, 0, True),
+                   (1, 0, 2, False, 1, False, 1, True, 1, True, 0, True, 0, False),
+                   (4, 9, 0, True, 0, False, 6, True, 3, False, 2, True, 0, True)],
 }
 
 
